@@ -9,6 +9,8 @@ expressions are the listed known finding K1, anything else is a violation.
 
 from __future__ import annotations
 
+import re
+
 from harness import ctxrun
 from harness import gen_ctx as GC
 from harness.common import ImplWorker, Model, Report, rng_for, depth
@@ -126,6 +128,14 @@ def run(tier: str, seed: int, rep: Report, model: Model) -> dict:
                     rep.violation({"what": f"{im['exn']} (not a DLTypeError) came out of the checker", **rec})
             elif im["v"] == "reject":
                 why = factual(case, im)
+                if why is None and im.get("kind") == "InvalidRef" and ref["v"] == "undefined" and ref.get("kind") == "KeyError" and ex:
+                    # the reference knows which name is unbound where, and which names are bound at that point
+                    if im.get("name") != ref["name"] or im.get("missing") != ref["missing"]:
+                        why = f"the unbound reference is {ref['missing']!r} in {ref['name']!r}"
+                    elif sorted(v for v in (im.get("valid") or []) if re.fullmatch(r"[a-zA-Z][a-zA-Z0-9_]*", v)) != ref["bound"] and not any("[" in v for v in (im.get("valid") or [])):
+                        # (expression axes are remembered under their own text; only identifiers are names)
+                        why = f"the names bound at that point are {ref['bound']}"
+
                 if str(im.get("kind", "")).startswith("Unparsed"):
                     rep.violation({"what": "the error message does not have the documented fields", **rec})
                 elif why is not None:
